@@ -172,6 +172,29 @@ ROUND11 = {
     "C19": _AMB + " Every fourth stream case runs on a single CPU (taskset -c 0).",
     "C20": _AMB + " The three processes of a comparison stand in different working directories and see source files of different age (1980 / now / 2100).",
 }
+_AE = "After a handled error:"
+ROUND12 = {
+    "C01": _AE + " a request refused by a callback leaves [types], directory and SBOM files as they were.",
+    "C02": _AE + " a migration to metadata TOML cannot hold (u64::MAX) ends every history - error, no further callback, nothing changed; a completed ReplaceMetadata is not undone when a later callback fails.",
+    "C03": _AE + " a write with '/' in names between the two writes of a pair; envs whose process type is named like a launch variable's env file are refused or complete.",
+    "C04": _AE + " inserts whose name conversion panics (caught) between the ordinary inserts contribute nothing and lose nothing.",
+    "C05": _AE + " builds that handle a failed layer TOML write before returning their result.",
+    "C06": _AE + " every typed plan-metadata read is preceded by a refused one.",
+    "C07": _AE + " a refused Require::metadata after the accepted ones.",
+    "C08": _AE + " a valid file rejected after rejected documents is a violation.",
+    "C11": _AE + " a recreated layer whose result cannot be written (SBOMs, then an exec.d program without source) is requested anew: nothing of either incarnation remains.",
+    "C12": _AE + " the same write_env / write_sboms / write_exec_d_programs issued again after a reported fault (or another program set) leaves what the call leaves without any fault.",
+    "C13": _AE + " a dangling id whose buildpack exists in a hidden and in an ignored directory still dangles.",
+    "C14": _AE + " the run with the completed map into the same destination after a run refused for a missing id is judged like a first run.",
+    "C15": _AE + " a failed run (compile error; dangling dependency with a namesake next to the workspace), cause repaired, next run equals the clean tree.",
+    "C16": _AE + " docker run failing with 'port is already allocated'; rebuilds that expect failure and whose closure runs.",
+    "C17": _AE + " a FIFO in the fixture; a build after a build that panicked in the same process.",
+    "C18": _AE + " every parse is preceded by a refused inventory document.",
+    "C19": _AE + " a tee target / inner writer that refuses one call, the caller carries on with the next chunk.",
+    "C20": _AE + " what a failed trait-API call leaves (eight exec.d programs, the last without source) is compared across processes too.",
+}
+for _k, _v in ROUND12.items():
+    ROUND11[_k] = (ROUND11.get(_k, "") + " " + _v).strip()
 for _k, _v in ROUND11.items():
     ROUND10[_k] = (ROUND10.get(_k, "") + " " + _v).strip()
 for _k, _v in ROUND10.items():
